@@ -362,7 +362,7 @@ def data_grid(arr, spacing=None, medium_index=None, illum_wavelen=None,
 
     if np.isscalar(spacing):
         spacing = np.repeat(spacing, 2)
-    if np.isscalar(z) and arr.ndim == 2 + len(extra_dims or {}):
+    if np.isscalar(z) and np.ndim(arr) == 2 + len(extra_dims or {}):
         # (x, y and the extra dimensions, no z axis yet -- also for a one-row
         # image, which len(arr) > 1 took for an array that has its z axis)
         arr = np.expand_dims(arr, axis=0)
